@@ -64,4 +64,64 @@ theorem with_capacity_mem (X : Ctx) (hz : 0 < X.c.elemSize) (s : St) (hv : s.v =
     simp only; rw [this]; exact .grownAlloc c a L (by simp [hgs0]) hLy
   | grownRealloc c L L0 hd hlen hLy hL0 => simp [GS.reset] at hd
 
+/-- `with_alignment(n, a)` on the never-allocated handle: an unacceptable alignment is reported through `Err` with
+    nothing touched; otherwise the empty vector owns a correctly laid out block of capacity `n` requested with
+    alignment `a`, or the call stops in a sanctioned way -/
+theorem with_alignment_mem (X : Ctx) (hz : 0 < X.c.elemSize) (s : St) (hv : s.v = {}) (n a : Nat) :
+    (∃ e, VM.lift X (with_alignment X.env n a) s = (.ok (.error e), s)) ∨
+    CapMemR X s [] (Except.ok () : Except LayoutErr Unit) (VM.lift X (with_alignment X.env n a) s) := by
+  have hzE : X.env.c.elemSize > 0 := hz
+  have habs : Abs X s.v [] := by rw [hv]; exact Abs.sentinel_abs X hz
+  let gs0 := hsOf s.v s.sys.allocIdx
+  have hgs0 : gs0 = { isDefault := true, len := 0, cap := 0, align := 0, allocIdx := s.sys.allocIdx } := by
+    simp [gs0, hsOf, hv]
+  by_cases h1 : a < max X.env.c.elemAlign hdrAlign
+  · left
+    exact ⟨.AlignmentTooSmall, lift_read X _ s _ (by rw [with_alignment_spec, if_pos h1])⟩
+  · by_cases h2 : isPow2 a = false
+    · left
+      exact ⟨.AlignmentNotDivisibleByTwo, lift_read X _ s _ (by rw [with_alignment_spec, if_neg h1, if_pos h2])⟩
+    · right
+      have hwa : with_alignment X.env n a gs0 =
+          (match grow X.env n a gs0.reset with
+           | (.ok _, s') => (.ok (.ok ()), s')
+           | (.error p, s') => (.error p, s')) := by
+        rw [with_alignment_spec, if_neg h1, if_neg h2, if_pos hzE]
+        cases grow X.env n a gs0.reset with
+        | mk r s' => cases r <;> rfl
+      have hco := grow_capOutcome X.env gs0.reset n a (by simp [GS.reset, hgs0]) (by simp [GS.L, GS.reset, hgs0])
+        (by intro hd; simp [GS.reset, hgs0] at hd)
+      have hreset_acts : gs0.reset.acts = [.reset] := by simp [GS.reset, hgs0]
+      have hdrop : ({ gs0.reset with acts := gs0.reset.acts.tail } : GS) = gs0 := by
+        simp [GS.reset, hgs0]
+      have hacts : ∃ acts, (with_alignment X.env n a gs0).2.acts = .reset :: acts := by
+        rw [hwa]
+        generalize grow X.env n a gs0.reset = out at hco
+        cases hco with
+        | same => exact ⟨[], hreset_acts⟩
+        | rejected p hp => exact ⟨[], hreset_acts⟩
+        | allocFailed req hreq => exact ⟨[req], by simp [GS.refused, hreset_acts]⟩
+        | grownAlloc c a' L hd hLy => exact ⟨_, by simp only [GS.grown, hreset_acts]; rfl⟩
+        | grownRealloc c L L0 hd hlen hLy hL0 => simp [GS.reset] at hd
+      obtain ⟨acts, ha⟩ := hacts
+      rw [lift_drop_reset X _ s (by rw [hv]) acts ha]
+      apply lift_cap X _ (Except.ok () : Except LayoutErr Unit) s [] habs
+      show CapOutcomeR X.env gs0 (Except.ok () : Except LayoutErr Unit)
+        (((with_alignment X.env n a gs0).1, { (with_alignment X.env n a gs0).2 with acts := (with_alignment X.env n a gs0).2.acts.tail }))
+      rw [hwa]
+      generalize grow X.env n a gs0.reset = out at hco
+      cases hco with
+      | same => simp only; rw [hdrop]; exact .same
+      | rejected p hp => simp only; rw [hdrop]; exact .rejected p hp
+      | allocFailed req hreq =>
+        have : ({ gs0.reset.refused req with acts := (gs0.reset.refused req).acts.tail } : GS) = gs0.refused req := by
+          simp [GS.refused, GS.reset, hgs0]
+        simp only; rw [this]; exact .allocFailed req hreq
+      | grownAlloc c a' L hd hLy =>
+        have : ({ gs0.reset.grown c a' (.alloc L.size L.align) with acts := (gs0.reset.grown c a' (.alloc L.size L.align)).acts.tail } : GS) =
+            gs0.grown c a' (.alloc L.size L.align) := by
+          simp [GS.grown, GS.reset, hgs0, GS.L]
+        simp only; rw [this]; exact .grownAlloc c a' L (by simp [hgs0]) hLy
+      | grownRealloc c L L0 hd hlen hLy hL0 => simp [GS.reset] at hd
+
 end MV
